@@ -71,6 +71,10 @@ class MemCIA(CIA):
 
     def compute_cia(self, temperature):
         t = self._t
+        if temperature != temperature:
+            # NaN temperature (e.g. a negative Guillot opacity): the real CIA
+            # readers clamp the index and let the NaN propagate
+            return np.full(self._tab.shape[1], np.nan)
         if temperature <= t[0]:
             return self._tab[0].copy()
         if temperature >= t[-1]:
@@ -242,6 +246,26 @@ def build_model(cfg, install=True, contrib_order=None):
     return model
 
 
+def add_extra_contribs(rng, cfg, p=0.3):
+    """Optionally add a cloud deck and one haze (with the settings they need
+    to evaluate) to a generated configuration."""
+    if rng.random() < p:
+        cfg['contribs'] = list(cfg['contribs']) + ['SimpleClouds']
+        cfg['clouds_pressure'] = 10 ** rng.uniform(1, 5)
+    if rng.random() < p:
+        haze = rng.choice(['FlatMie', 'LeeMie'])
+        cfg['contribs'] = list(cfg['contribs']) + [haze]
+        cfg['flatmie'] = {'mix': 10 ** rng.uniform(-12, -8),
+                          'bottomP': rng.choice([-1, 1e5]),
+                          'topP': rng.choice([1e1, 1e2])}
+        cfg['leemie'] = {'radius': rng.uniform(0.005, 0.05),
+                         'q': rng.uniform(10, 60),
+                         'mix': 10 ** rng.uniform(-12, -9),
+                         'bottomP': rng.choice([-1, 1e5]),
+                         'topP': rng.choice([-1, 1e2])}
+    return cfg
+
+
 def gen_model_cfg(rng, family=None, contribs=None, nmol=None):
     """Seeded small-model configuration (valid region)."""
     pool = ['H2O', 'CH4', 'CO2', 'CO']
@@ -249,7 +273,8 @@ def gen_model_cfg(rng, family=None, contribs=None, nmol=None):
     mols = rng.sample(pool, nmol)
     cfg = {
         'family': family or rng.choice(['transmission', 'transmission',
-                                        'emission']),
+                                        'transmission', 'emission', 'emission',
+                                        'directimage']),
         'nlayers': rng.randint(3, 10),
         'pmin': 10 ** rng.uniform(-2, 1), 'pmax': 10 ** rng.uniform(5, 6.5),
         'molecules': [{'name': m, 'mix': 10 ** rng.uniform(-7, -3)}
